@@ -151,6 +151,13 @@ def generate(seed, tier):
     nv = r.random() < 0.1
     fault_run = (not nv) and r.random() < 0.3
     ops = []
+    if not nv and r.random() < 0.03:
+        # more distinct wrappers on one evaluator than any plausible bound on its cache,
+        # then the first ones again
+        k = r.randint(1050, 1400)
+        return {"config": {"nv": False, "fault_run": False, "wide": k},
+                "ops": [["widelist", 0, k],
+                        ["evalall", {"ev": 0, "cached": False, "vars": _gen_vars(r)}, 0, [0, 1]]]}
     if not nv and r.random() < 0.3:
         # churn: lists are built, tagged, evaluated and dropped (garbage collected) in many
         # rounds inside one process, so that anything the tagger or an evaluator keeps
@@ -365,9 +372,27 @@ def execute(scenario, open_sigs):
                 sys.setprofile(obs._prof)
             check_tagged_structure(L)
 
+    def nested_pairs(c):
+        n = 0
+        if isinstance(c, list) and c:
+            if c[0] == "E":
+                if c[1] == P + "CommonSubexpression":
+                    ch = c[2][0]
+                    if isinstance(ch, list) and ch and ch[0] == "E" \
+                            and ch[1] == P + "CommonSubexpression":
+                        n += 1
+                for f in c[2]:
+                    n += nested_pairs(f)
+            elif c[0] == "tuple":
+                for x in c[1]:
+                    n += nested_pairs(x)
+        return n
+
     def check_tagged_structure(L):
-        # S2: no wrapper directly around a wrapper (wrapper-free inputs)
-        if not L["wf"]:
+        # the tagger places no wrapper directly around another wrapper: for wrapper-free
+        # inputs by the statement's second sentence; for pre-wrapped inputs it must at least
+        # not *create* such a pair where the input had none
+        if not L["wf"] and any(nested_pairs(c) for c in L["canon"]):
             return
         for i, t in enumerate(L["tagged"]):
             bad = []
@@ -488,12 +513,19 @@ def execute(scenario, open_sigs):
                 break
             steps += 1
             k = op[0]
-            if k == "list":
-                _, lid, terms, wf = op
-                objs = []
-                for t in terms:
-                    o = B.build(t)
-                    objs.append(o)
+            if k in ("list", "widelist"):
+                if k == "widelist":
+                    _, lid, nw = op
+                    a = p.Variable("a")
+                    ts = [p.Product((a, i + 2)) for i in range(int(nw))]
+                    objs = [p.Sum(tuple(ts)), p.Sum((*ts, p.Variable("b")))]
+                    terms, wf = [None, None], True
+                else:
+                    _, lid, terms, wf = op
+                    objs = []
+                    for t in terms:
+                        o = B.build(t)
+                        objs.append(o)
                 L = {"lid": lid, "orig": objs, "tagged": None, "wf": wf,
                      "canon": [canon(o, obs.memo) for o in objs]}
                 lists[lid] = L
